@@ -6,8 +6,24 @@ use serde::{Deserialize, Serialize};
 /// A currency identified by 3-ascii ISO code.
 #[pyclass(module = "rateslib.rs")]
 #[derive(Copy, Clone, Debug, Eq, PartialEq, Hash, Serialize, Deserialize)]
+#[serde(try_from = "CcyDataModel")]
 pub struct Ccy {
     pub(crate) name: Intern<String>,
+}
+
+/// Deserialization data model for `Ccy`: the stored name is validated as by `try_new`.
+#[derive(Deserialize)]
+struct CcyDataModel {
+    name: String,
+}
+
+impl std::convert::TryFrom<CcyDataModel> for Ccy {
+    type Error = String;
+
+    fn try_from(model: CcyDataModel) -> Result<Self, Self::Error> {
+        Ccy::try_new(&model.name)
+            .map_err(|_| "`Ccy` must be 3 ascii character in length, e.g. 'usd'.".to_string())
+    }
 }
 
 impl Ccy {
